@@ -296,27 +296,27 @@ class Lattice(keras.layers.Layer):
     self.monotonicities = monotonicities
     self.unimodalities = unimodalities
     # Check if inputs are a single tuple of ints (vs an iterable of tuples)
-    if (isinstance(edgeworth_trusts, tuple) and
+    if (isinstance(edgeworth_trusts, tuple) and edgeworth_trusts and
         isinstance(edgeworth_trusts[0], int)):
       self.edgeworth_trusts = [edgeworth_trusts]
     else:
       self.edgeworth_trusts = edgeworth_trusts
-    if (isinstance(trapezoid_trusts, tuple) and
+    if (isinstance(trapezoid_trusts, tuple) and trapezoid_trusts and
         isinstance(trapezoid_trusts[0], int)):
       self.trapezoid_trusts = [trapezoid_trusts]
     else:
       self.trapezoid_trusts = trapezoid_trusts
-    if (isinstance(monotonic_dominances, tuple) and
+    if (isinstance(monotonic_dominances, tuple) and monotonic_dominances and
         isinstance(monotonic_dominances[0], int)):
       self.monotonic_dominances = [monotonic_dominances]
     else:
       self.monotonic_dominances = monotonic_dominances
-    if (isinstance(range_dominances, tuple) and
+    if (isinstance(range_dominances, tuple) and range_dominances and
         isinstance(range_dominances[0], int)):
       self.range_dominances = [range_dominances]
     else:
       self.range_dominances = range_dominances
-    if (isinstance(joint_monotonicities, tuple) and
+    if (isinstance(joint_monotonicities, tuple) and joint_monotonicities and
         isinstance(joint_monotonicities[0], int)):
       self.joint_monotonicities = [joint_monotonicities]
     else:
